@@ -28,6 +28,7 @@ type inlMode struct {
 	kind     int
 	lhs      []ast.Expr
 	lhsObjs  []types.Object
+	dead     []bool // the variable is read nowhere but in the test of the results
 	tok      token.Token
 	consumer *ast.IfStmt
 	tmpName  string // the single LHS is a temporary introduced by this pass (no type information)
@@ -55,6 +56,7 @@ type builder struct {
 	calleeSz       int
 	declared       map[string]bool
 	assignsEmitted int
+	varAssigned    map[int]bool
 }
 
 // newBuilder matches arguments with parameters and decides, per parameter, between substitution and binding.
@@ -111,6 +113,41 @@ func (c *inlCtx) newBuilder(call *ast.CallExpr, f *Func) *builder {
 		}
 	}
 	finfo := f.Pkg.TypesInfo
+	// an assignment through a pointer, map or slice held by a variable does not write the variable
+	rootWritten := func(l ast.Expr) *ast.Ident {
+		id := rootOf(l)
+		if id == nil {
+			return nil
+		}
+		if unparen(l) == ast.Expr(id) {
+			return id
+		}
+		// walk down from the root: a pointer, map or slice step means the store lands elsewhere
+		e := unparen(l)
+		for {
+			var inner ast.Expr
+			switch x := e.(type) {
+			case *ast.SelectorExpr:
+				inner = x.X
+			case *ast.IndexExpr:
+				inner = x.X
+			case *ast.ParenExpr:
+				inner = x.X
+			default:
+				return id
+			}
+			if tv, ok := finfo.Types[inner]; ok && tv.Type != nil {
+				switch tv.Type.Underlying().(type) {
+				case *types.Pointer, *types.Map, *types.Slice:
+					return nil
+				}
+			}
+			if unparen(inner) == ast.Expr(id) {
+				return id
+			}
+			e = inner
+		}
+	}
 	localNames := map[string]bool{}
 	fieldsAssigned := map[string]bool{}
 	hasCall := false
@@ -118,7 +155,7 @@ func (c *inlCtx) newBuilder(call *ast.CallExpr, f *Func) *builder {
 		switch x := n.(type) {
 		case *ast.AssignStmt:
 			for _, l := range x.Lhs {
-				if id := rootOf(l); id != nil {
+				if id := rootWritten(l); id != nil {
 					if o := finfo.Uses[id]; o != nil {
 						written[o] = true
 					}
@@ -128,7 +165,7 @@ func (c *inlCtx) newBuilder(call *ast.CallExpr, f *Func) *builder {
 				}
 			}
 		case *ast.IncDecStmt:
-			if id := rootOf(x.X); id != nil {
+			if id := rootWritten(x.X); id != nil {
 				if o := finfo.Uses[id]; o != nil {
 					written[o] = true
 				}
